@@ -379,14 +379,21 @@ def block_facts(ctx):
     if flag.get("k") != "Local":
         raise Anchor("compress_fastest's last-block argument is not a local")
     fcases = ix.local_value_cases(flag["lid"])
-    READ = re.compile(r"core::result::Result::unwrap\((?:std::io|ruzstd::io_nostd)::Read::read\(%s, %s\[.*\.\.\]\)\)" % (re.escape(SRC_), re.escape(SPACE_)))
+    # the source: the reader held in an Option field of the compressor (whatever the field is called)
+    allreads = [x for x, _ in H.walk(b["body"]) if x.get("k") == "MethodCall" and x["name"] == "read" and
+                (x.get("callee") or "").endswith("::Read::read")]
+    srcs = sorted(set(pv(x["recv"]) for x in allreads))
+    if len(srcs) != 1 or not re.fullmatch(r"core::option::Option::unwrap\(core::option::Option::as_mut\(self\.\w+\)\)", srcs[0]):
+        raise Anchor("compress() does not read from exactly one `self.<field>.as_mut().unwrap()` source: %s" % srcs)
+    SRC = srcs[0]
+    READ = re.compile(r"core::result::Result::unwrap\((?:std::io|ruzstd::io_nostd)::Read::read\(%s, %s\[.*\.\.\]\)\)" % (re.escape(SRC), re.escape(SPACE_)))
     rows = []
     for v, site in fcases:
         pcs = [p for p in ix.path_conditions(site) if p["kind"] in hq.Index.CASE_KINDS and "expr" in p]
         rows.append({"value": H.lit_val(v) if v is not None else None, "site": site,
                      "conds": [(p.get("pos", True), pv(p["expr"]), ix.canon(p["expr"]), p) for p in pcs]})
     # the read call and the accumulator it appends at
-    reads = [x for x, _ in H.walk(b["body"]) if x.get("k") == "MethodCall" and x["name"] == "read" and pv(x["recv"]) == SRC_]
+    reads = allreads
     acc = None
     read_ok = False
     if len(reads) == 1:
